@@ -103,28 +103,30 @@ type OutboundBreaker struct {
 	// Constructor argument.
 	interval time.Duration
 
-	// counts tracks hits per tick.
+	// spans tracks the admitted calls, oldest first.
 	//
 	// The important state for the OutboundBreaker.  Each element
-	// stores the count of actions during a span of time
-	// associated (implicitly) with that element.  The method
-	// slide() will slide entries off the end as time passes.
-	counts []int64
+	// counts the calls admitted during a span of time that begins
+	// with its first call and is at most one tick long, and
+	// remembers when the first and the last of them happened.  The
+	// method slide() drops the spans whose calls have all aged out
+	// of the interval.
+	spans []breakerSpan
 
-	// updated is the last time this breaker was updated.
+	// ticks is how many spans cover an interval.
 	//
-	// We need to remember when we were updated in order to know
-	// how much to slide() the 'counts' array when requested.
-	updated time.Time
-
-	// ticks is the size of the 'counts' array
-	//
-	// The time associated with a 'count' element is the
-	// 'interval' divided by 'ticks'.  So a OutboundBreaker with 100 ticks
-	// and a 1s interval will track counts on 10ms resolution.
+	// So a OutboundBreaker with 100 ticks and a 1s interval will
+	// track calls on 10ms resolution.
 	ticks int
 
 	disabled bool
+}
+
+// breakerSpan counts the calls that were admitted within one tick of
+// the first of them.
+type breakerSpan struct {
+	first, last time.Time
+	count       int64
 }
 
 // breakerTicks is the default size of breakers' sliding windows.
@@ -162,18 +164,11 @@ func (b *OutboundBreaker) Disable(disabled bool) {
 func (b *OutboundBreaker) Do(f func() error) (bool, error) {
 	b.Lock()
 	now := time.Now()
-	b.slide(now)
-	total := int64(0)
-	for _, count := range b.counts {
-		total += count
-	}
+	total := b.slide(now)
 	closed := total < b.limit
 	// log.Printf("OutboundBreaker total %d %v", total, closed)
 	if closed {
-		b.counts[0]++
-		// Start the current tick at this call so that the call
-		// is counted for at least the whole interval.
-		b.updated = now
+		b.count(now)
 	}
 	b.Unlock()
 	var err error
@@ -199,13 +194,13 @@ func (b *OutboundBreaker) Zap() bool {
 // Summary gives a one-line summary of the breaker's state.
 func (b *OutboundBreaker) Summary() string {
 	b.Lock()
-	b.slide(time.Now())
-	total := int64(0)
-	for _, count := range b.counts {
-		total += count
+	total := b.slide(time.Now())
+	counts := make([]int64, len(b.spans))
+	for i, span := range b.spans {
+		counts[i] = span.count
 	}
 	s := fmt.Sprintf(`OutboundBreaker{total:%d, interval:"%v",counts:%#v}`,
-		total, b.interval, b.counts)
+		total, b.interval, counts)
 	b.Unlock()
 	return s
 }
@@ -215,11 +210,7 @@ func (b *OutboundBreaker) Summary() string {
 // (bad: false).
 func (b *OutboundBreaker) Status() BreakerStatus {
 	b.Lock()
-	b.slide(time.Now())
-	total := int64(0)
-	for _, count := range b.counts {
-		total += count
-	}
+	total := b.slide(time.Now())
 	load := float64(total) / float64(b.limit)
 	closed := total < b.limit
 	b.Unlock()
@@ -229,10 +220,7 @@ func (b *OutboundBreaker) Status() BreakerStatus {
 // Reset clears the breaker's state (but does not change its capacity).
 func (b *OutboundBreaker) Reset() {
 	b.Lock()
-	b.updated = time.Now()
-	for i, _ := range b.counts {
-		b.counts[i] = 0
-	}
+	b.spans = nil
 	b.Unlock()
 }
 
@@ -247,36 +235,47 @@ func (b *OutboundBreaker) init(limit int64, interval time.Duration) (*OutboundBr
 	b.limit = limit
 	b.interval = interval
 	b.ticks = ticks
-	b.counts = make([]int64, ticks)
+	b.spans = nil
 	return b, nil
 }
 
-// slide moves the count entries down the line based on the current time.
-func (b *OutboundBreaker) slide(now time.Time) {
+// slide drops the spans that have aged out of the interval and returns
+// the number of calls that still count.
+//
+// A span goes when its last call is an interval old.  Until then all
+// of its calls count - also those that are already older than that, by
+// less than a tick - so a call counts for the whole interval at least
+// and for one tick more at most, however the calls are spaced.  (A
+// window of counts per tick that slides by the clock has to forget
+// either the time since the last call or the time since the last tick;
+// the first makes callers that come less than a tick apart keep their
+// own calls young, the second lets calls go up to a tick early.)
+func (b *OutboundBreaker) slide(now time.Time) int64 {
 	// Assumes lock
-	ns := now.Sub(b.updated).Nanoseconds()
-	resolution := b.interval.Nanoseconds() / int64(b.ticks)
-	elapsed := ns / int64(resolution)
-	if elapsed <= 0 {
-		// Less than a tick has passed.  Do not touch 'updated':
-		// otherwise a caller that polls faster than a tick would
-		// keep the counts from ever sliding.
+	drop := 0
+	for drop < len(b.spans) && b.interval <= now.Sub(b.spans[drop].last) {
+		drop++
+	}
+	if 0 < drop {
+		b.spans = append(b.spans[:0], b.spans[drop:]...)
+	}
+	total := int64(0)
+	for _, span := range b.spans {
+		total += span.count
+	}
+	return total
+}
+
+// count notes an admitted call.
+func (b *OutboundBreaker) count(now time.Time) {
+	// Assumes lock
+	resolution := b.interval / time.Duration(b.ticks)
+	if n := len(b.spans); 0 < n && now.Sub(b.spans[n-1].first) < resolution {
+		b.spans[n-1].count++
+		b.spans[n-1].last = now
 		return
 	}
-	if int64(len(b.counts)) <= elapsed {
-		for i := range b.counts {
-			b.counts[i] = 0
-		}
-		b.updated = now
-		return
-	}
-	ticks := int(elapsed)
-	copy(b.counts[ticks:], b.counts)
-	for i := 0; i < ticks; i++ {
-		b.counts[i] = 0
-	}
-	// Advance by whole ticks only so that no time is lost.
-	b.updated = b.updated.Add(time.Duration(elapsed * resolution))
+	b.spans = append(b.spans, breakerSpan{now, now, 1})
 }
 
 // ComboBreaker is a bunch of Breakers considered as one.
